@@ -24,7 +24,7 @@ package internal
 //@   ensures @binary result_1 == nil ==> wireFmt[slicebase(result_0)] == 1
 
 //@ func (StrictProtoCodec).Unmarshal
-//@   modifies lastUnmarshalFmt
+//@   modifies @pbParsed
 //@   ensures @binary result == nil ==> lastUnmarshalFmt[0] == 1
 //@   ensures @strict result == nil ==> pbUnknownLen[reflOf(unbox(msg, proto.Message))] == 0
 
